@@ -81,6 +81,7 @@ func genConcBase(r *simrt.Rand, gc bool) *Plan {
 	p.Cfg.FileCache = []int{0, 1, 2, 512}[r.Intn(4)]
 	p.Cfg.Flusher = r.Chance(0.8)
 	p.Cfg.SyncMs = []int{1, 5, 20, 100, 1000}[r.Intn(5)]
+	p.Cfg.SyncOnFlush = r.Chance(0.15)
 	nk := 2 + r.Intn(5)
 	p.Keys = GenKeys(r, nk, false)
 	// concentrate keys in one or two buckets: overwrite the first digest byte
